@@ -194,6 +194,25 @@ func (w *world) doOp(p op) {
 			if len(str) != 16 || strings.ToLower(str) != str || back.DecodeFromString(str) != nil || back != id {
 				r.Violate("C31:id-round-trip", "generated-id", "%s: id %d encodes to %q which decodes to %d", who, uint64(id), str, uint64(back))
 			}
+			// and in passing: damaged copies of that string must be rejected (a byte that is no hex digit at a
+			// tape-chosen position, one character more or less) — sampled, not claimed for all strings
+			fz := r.Tape.S("idstr")
+			pos := fz.Choose(16, "pos")
+			bad := byte(fz.Choose(256, "byte"))
+			if !(bad >= '0' && bad <= '9' || bad >= 'a' && bad <= 'f' || bad >= 'A' && bad <= 'F') {
+				dm := []byte(str)
+				dm[pos] = bad
+				var x platform.ID
+				if err := x.Decode(dm); err == nil {
+					r.Violate("C31:invalid-id-accepted", "non-hex-byte", "Decode accepted %q (byte %#x at position %d is not a hex digit) as id %d", dm, bad, pos, uint64(x))
+				}
+			}
+			for _, t := range []string{str[:15], str + "0"} {
+				var x platform.ID
+				if err := x.DecodeFromString(t); err == nil {
+					r.Violate("C31:invalid-id-accepted", "wrong-length", "Decode accepted the %d-character string %q", len(t), t)
+				}
+			}
 			r.Sim.Progress.Add(1)
 		}
 		w.who[p.C] = true
